@@ -65,6 +65,32 @@ Definition opt_Z_eqb (a b : option Z) : bool :=
   match a, b with Some x, Some y => Z.eqb x y | None, None => true | _, _ => false end.
 Definition all_fps (a b : list row) : list N := nodup N.eq_dec (map r_fp (a ++ b)).
 
+(* the staleness edge of step bucketing at evaluation time T with look-back L: the latest sample at or before T is older
+   than the look-back, but the end of its step bucket (its new stamp) is not *)
+Definition stale_edge (start step L T : Z) (l : list sample) : bool :=
+  match latest_le T l with
+  | Some s => (fst s <? T - L)%Z && (T - L <=? bucket_of start step (fst s))%Z
+  | None => false
+  end.
+(* the guard under which the engine is proved to see the raw samples through processHints (theorem
+   promql_over_raw_samples_partial): the statement is left alone, or the evaluation times lie on the grid the rewrite
+   assumes -- Step divides the look-back for step bucketing (then still apart from stale edges, a condition on the data),
+   Start + Range is a multiple of Step for the modulo filter *)
+Definition hints_guard (h : hints) : bool :=
+  if Z.eqb (h_step h) 0 then true
+  else if is_instant (h_func h) then (0 <? h_step h)%Z && Z.eqb (Z.rem lookback_ms (h_step h)) 0
+  else if is_range (h_func h) && (h_range h <? h_step h)%Z then (0 <=? h_range h)%Z && Z.eqb (Z.rem (h_start h + h_range h) (h_step h)) 0
+  else true.
+
+(* the rows the statement of Select yields for the hints, as a function of the rows of the Prometheus meaning
+   (theorem prom_rows_all_hints): processHints' three cases *)
+Definition hinted_rows (h : hints) (rows : list row) : list row :=
+  if Z.eqb (h_step h) 0 then rows
+  else if is_instant (h_func h) then bucket_rows (h_start h) (h_step h) rows
+  else if is_range (h_func h) && (h_range h <? h_step h)%Z
+       then filter (fun r => range_keep (h_step h) (h_range h) (r_ts r, r_val r)) rows
+  else rows.
+
 (* 0 = the engine sees the same; 9 = the list reading (bucket_series / range_filter) is not what the statement
    computes; 10 = instant look-ups differ, evaluation times off the bucket grid; 12 = only a sample older than
    the look-back shows up after re-stamping; 11 = range windows lose samples, evaluation times off the modulo
@@ -75,12 +101,13 @@ Definition hints_verdict (h : hints) (raw impl : list row) : Z :=
     let reading_ok := forallb (fun fp => samples_eqb (bucket_series (h_start h) (h_step h) (rows_of fp raw)) (rows_of fp impl)) fps in
     let times := grid 64 (h_start h + lookback_ms) (h_step h) (h_end h) in
     let same := forallb (fun fp => forallb (fun T => opt_Z_eqb (visible lookback_ms T (rows_of fp impl)) (visible lookback_ms T (rows_of fp raw))) times) fps in
-    let only_stale := forallb (fun fp => forallb (fun T => match visible lookback_ms T (rows_of fp raw) with
-                                                          | Some v => opt_Z_eqb (visible lookback_ms T (rows_of fp impl)) (Some v)
-                                                          | None => true end) times) fps in
+    (* every differing look-up is a stale edge (the complement of the proved region: step_bucket_exact_on_grid) *)
+    let only_stale := forallb (fun fp => forallb (fun T =>
+                         opt_Z_eqb (visible lookback_ms T (rows_of fp impl)) (visible lookback_ms T (rows_of fp raw))
+                         || stale_edge (h_start h) (h_step h) lookback_ms T (rows_of fp raw)) times) fps in
     if negb reading_ok then 9
     else if same then 0
-    else if negb (Z.eqb (Z.rem lookback_ms (h_step h)) 0) then 10
+    else if negb (hints_guard h) then 10
     else if only_stale then 12 else 4
   else if is_range (h_func h) && (h_range h <? h_step h)%Z then
     let reading_ok := forallb (fun fp => samples_eqb (range_filter (h_step h) (h_range h) (rows_of fp raw)) (rows_of fp impl)) fps in
@@ -88,14 +115,13 @@ Definition hints_verdict (h : hints) (raw impl : list row) : Z :=
     let same := forallb (fun fp => forallb (fun T => samples_eqb (window (h_range h) T (rows_of fp impl)) (window (h_range h) T (rows_of fp raw))) times) fps in
     if negb reading_ok then 9
     else if same then 0
-    else if negb (Z.eqb (Z.rem (h_start h + h_range h) (h_step h)) 0) then 11 else 4
+    else if negb (hints_guard h) then 11 else 4
   else 0.
 
 (* verdict codes:
    0 ok;  1 the parse does not render back to the text;  2 the interpreter has no value for the query;
    3 model tree and implementation text mean different row lists;  4 rows differ from the Prometheus
-   meaning although no recorded cause applies;  5 (profile selectors only) .. explained by: absent label accepted by a
-   selector;  7 .. more than 63 matchers (64-bit shift);  8 no matcher rejects the empty string (not a PromQL selector);
+   meaning although no recorded cause applies;  (5 was: profile selector accepting an absent label, repaired);  7 .. more than 63 matchers (64-bit shift);  8 no matcher rejects the empty string (not a PromQL selector);
    9 .. 12 see hints_verdict *)
 Definition sem_verdict (c : semcase) : Z :=
   let search := tbl_lookup (se_search c) in
@@ -198,14 +224,14 @@ Definition psem_verdict (c : psemcase) : Z :=
   | None => 1
   | Some t =>
     if negb (String.eqb t (pe_text c)) then 1 else
-    if fpq_undefined search no_cte (pe_impl c) (map pgin_env rows) then 2 else
+    if fpq_undefined search (prof_cte search rows) (pe_impl c) (map pgin_env rows) then 2 else
     let impl := sortN (eval_prof_sel search (pe_impl c) rows) in
-    let model := sortN (eval_prof_sel search (prof_selector (pe_table c) (pe_from_ns c) (pe_to_ns c) (pe_sels c)) rows) in
-    let reading := sortN (prof_fp_sel search D1 D2 (map prof_selector_val (pe_sels c)) rows) in
+    let model := sortN (eval_prof_sel search (prof_selector_abs full (pe_table c) (pe_from_ns c) (pe_to_ns c) (pe_sels c)) rows) in
+    let reading := sortN (prof_fp_sel_abs search D1 D2 (map prof_selector_val (prof_indexed_sels full (pe_sels c)))
+                            (map (fun s => prof_selector_val (sel_inverse s)) (prof_absent_sels full (pe_sels c))) rows) in
     let expected := sortN (prof_expected full D1 D2 (pe_sels c) (pe_series c)) in
     if negb (list_eqb N.eqb impl expected) then
-      (if Nat.ltb 63 (kv_count (pe_sels c)) then 7
-       else if prof_absent_case full (pe_sels c) (pe_series c) then 5 else 4)
+      (if Nat.ltb 63 (kv_count (pe_sels c)) then 7 else 4)
     else if negb (list_eqb N.eqb impl model) then 3
     else if negb (list_eqb N.eqb model reading) then 9
     else 0
